@@ -160,6 +160,14 @@ def compare(r, requested):
         sol_keys = {f'{sec}.{k}' for sec, d in r.solution.items() for k in d}
         if sol_keys != have:
             out.append(('C04', 'solution-keys', f'solution() keys differ from the stored values: {sorted(sol_keys ^ have)[:6]}'))
+    # C03 -- a stored value must be what its definition *returns*; a definition that ends not-implemented,
+    # blocked or missing an input on the final stores has no value to store
+    for name in sorted(have - want):
+        oc = c.outcome.get(name)
+        if oc in ('ni', 'unmet', 'missing', 'exc'):
+            out.append(('C03', 'stored-without-value:' + name.split('.')[0].split(':')[0] + '.' + name.split('.')[1],
+                        f'{name} is stored as {r.values[name]!r} but re-evaluating its definition on the final stores ends in {oc}'))
+            break
     # C03 -- fixed point
     for name in sorted(have & want):
         if not same_value(r.values[name], c.values[name]):
